@@ -217,7 +217,7 @@ def run_shard(ctx):
 
         # ---- children / get_child_nodes ----
         exp_children = [obj[id(c)] for c in kids_of(U, root_pos, cache)]
-        got_children = root.children
+        got_children = root.children if "children" not in type(root).__dataclass_fields__ else list(root.get_child_nodes())  # (a model may have a field of that name)
         ctx.evaluations += 1
         if [id(x) for x in got_children] != [id(x) for x in exp_children] or [id(x) for x in root.get_child_nodes()] != [
             id(x) for x in exp_children
